@@ -77,6 +77,29 @@ func S256(verifier string) string {
 	return keys.B64(h[:])
 }
 
+// Verifier draws an RFC 7636 code_verifier: unreserved characters only, length from the legal boundary set
+// {43, 44, 64, 127, 128} (the limits of section 4.1 and values next to them) or anywhere in between.
+func Verifier(r interface{ IntN(int) int }) string {
+	const alphabet = "ABCDEFGHIJKLMNOPQRSTUVWXYZabcdefghijklmnopqrstuvwxyz0123456789-._~"
+	n := []int{43, 44, 64, 127, 128, 43 + r.IntN(86)}[r.IntN(6)]
+	b := make([]byte, n)
+	for i := range b {
+		b[i] = alphabet[r.IntN(len(alphabet))]
+	}
+	return string(b)
+}
+
+// OtherVerifier is a legal verifier of the same length that differs from v in its last character only.
+func OtherVerifier(v string) string {
+	b := []byte(v)
+	if b[len(b)-1] == 'A' {
+		b[len(b)-1] = 'B'
+	} else {
+		b[len(b)-1] = 'A'
+	}
+	return string(b)
+}
+
 // Assertion builds a private_key_jwt / jwt-bearer assertion valid now.
 func Assertion(k *keys.Key, iss, sub string, aud []string, iat, exp time.Time, extra map[string]any) string {
 	m := map[string]any{"iss": iss, "sub": sub, "aud": aud, "iat": iat.Unix(), "exp": exp.Unix()}
